@@ -526,6 +526,21 @@ fn case_find_with(seed: u64, idx: usize, suite: &str, preset: Option<(Vec<ModeSp
         spec[0].patterns.insert(at, twin);
         st.count("same_pattern_text_twice_with_other_lookahead", 1);
     }
+    // C04, C05: two token types of a mode that agree in their low 32 bits, exactly one of the two
+    // patterns carrying a lookahead
+    let mut rco = Rng::derive(seed ^ 0x0c04_3232, idx as u64);
+    if (suite == "C04" || suite == "C05") && !preset_given && spec[0].patterns.len() >= 2 && rco.chance(6) {
+        let i = rco.below(spec[0].patterns.len());
+        let j = (i + 1 + rco.below(spec[0].patterns.len() - 1)) % spec[0].patterns.len();
+        spec[0].patterns[j].tid = spec[0].patterns[i].tid + (1usize << 32);
+        if spec[0].patterns[i].lookahead.is_some() == spec[0].patterns[j].lookahead.is_some() {
+            spec[0].patterns[j].lookahead = match spec[0].patterns[i].lookahead {
+                Some(_) => None,
+                None => Some((rco.chance(60), rco.pick(&["a", "b", ";", "[a-c]"]).to_string())),
+            };
+        }
+        st.count("token_types_congruent_mod_2^32_one_with_lookahead", 1);
+    }
     let modes = cfggen::to_modes(&spec);
     st.cases += 1;
     // C01: the reported token type and the tie-break are those of the configuration the scanner
@@ -1845,10 +1860,13 @@ fn c08_fixed(rcache: &RefCache, out: &mut String, st: &mut Stats) {
     }
     // chains of one set operator with three and more operands (left-nested), doubly negated POSIX
     // items
-    const CHAINS: [&str; 14] = [
+    const CHAINS: [&str; 28] = [
         "[a-c~~b-d~~c-e]", "[\\w~~\\d~~0-4]", "[a-z&&b-y&&c-x]", "[a-z--b-c--x]", "[^a-c~~b-d~~c-e]", "[a-c~~b-d~~c-e~~d-f]",
         "[[a-c~~b-d]~~c-e]", "[a-c~~[b-d~~c-e]]", "[^[:^alpha:]]", "[^[:^digit:]]", "[^[^[:^alpha:]]]", "[x[^[:^upper:]]]",
         "[a-e~~b-d~~c]", "[\\d~~\\d~~\\d]",
+        // negated POSIX items whose positive set is ASCII-only; differences whose left operand is "larger"
+        "[[:^ascii:]]", "[[:^blank:]]", "[[:^cntrl:]]", "[[:^graph:]]", "[[:^print:]]", "[[:^punct:]]", "[[:^xdigit:]]",
+        "[x[:^ascii:]]", "[[:^ascii:]&&\\w]", "[\\w--a-z]", "[\\p{Alphabetic}--a-z]", "[\\w\\s--\\d]", "[\\w--\\d--_]", "[\\w--_]",
     ];
     for (k, text) in CHAINS.iter().enumerate() {
         class_case(2_100_000 + k, text, rcache, out, st);
@@ -1929,7 +1947,74 @@ fn affects_iter(k: usize, op: &WOp) -> bool {
 
 /// C12: interleaved histories over several iterators of several scanners (same cache entry,
 /// uncached, other configuration) over several inputs.
+/// C12 (extra case): previews must not change the tokens on inputs whose scan (previews included)
+/// simulates around 2^16 characters: words of 65 500 … 65 545 letters between two numbers, iterated
+/// plainly, with one preview and with three previews in front of the long word.
+fn c12_long_peeks(idx: usize, out: &mut String, st: &mut Stats) {
+    st.cases += 1;
+    let _ = writeln!(out, "case {}\nexpect case {}\n# previews on inputs of about 2^16 characters", idx, idx);
+    let built = catch_unwind(AssertUnwindSafe(|| {
+        let m = scnr::ScannerMode::new("INITIAL", ["[0-9]+", "[a-z]+", "\\s+"].iter().enumerate().map(|(i, p)| scnr::Pattern::new(p.to_string(), i)), Vec::<(usize, usize)>::new());
+        ScannerBuilder::new().add_scanner_mode(m).build_uncached()
+    }));
+    let scanner = match built {
+        Ok(Ok(s)) => s,
+        _ => {
+            out.push_str("oracle FAIL the scanner of three simple patterns does not build\nexpect oracle\n");
+            return;
+        }
+    };
+    let mut bad: Option<String> = None;
+    for n in 65_500usize..=65_545 {
+        let input = format!("12 {} 345", "a".repeat(n));
+        let want: Vec<(usize, usize, usize)> = vec![(0, 0, 2), (2, 2, 3), (1, 3, 3 + n), (2, 3 + n, 4 + n), (0, 4 + n, 7 + n)];
+        for peeks in [0usize, 1, 3] {
+            let got = catch_unwind(AssertUnwindSafe(|| {
+                let mut it = scanner.find_iter(&input);
+                let mut v: Vec<(usize, usize, usize)> = Vec::new();
+                if peeks >= 1 {
+                    let _ = it.peek_n(1);
+                }
+                if let Some(m) = it.next() {
+                    v.push((m.token_type(), m.start(), m.end()));
+                }
+                for _ in 1..peeks {
+                    let _ = it.peek_n(1);
+                }
+                for m in it.by_ref().take(12) {
+                    v.push((m.token_type(), m.start(), m.end()));
+                }
+                v
+            }));
+            match got {
+                Ok(v) if v == want => {}
+                Ok(v) => {
+                    if bad.is_none() {
+                        bad = Some(format!("a word of {} letters between two numbers, {} preview(s): tokens {:?}, expected {:?}", n, peeks, v, want));
+                    }
+                }
+                Err(_) => {
+                    if bad.is_none() {
+                        bad = Some(format!("scanning panicked (word of {} letters, {} previews)", n, peeks));
+                    }
+                }
+            }
+        }
+    }
+    st.inputs += 46;
+    st.count("long_inputs_with_previews", 46 * 3);
+    match bad {
+        None => out.push_str("oracle ok\nexpect oracle\n"),
+        Some(b) => {
+            let _ = writeln!(out, "oracle FAIL {}\nexpect oracle", b);
+        }
+    }
+}
+
 fn case_c12(seed: u64, idx: usize, cache: &TableCache, out: &mut String, st: &mut Stats) {
+    if idx >= EXTRA_BASE {
+        return c12_long_peeks(idx, out, st);
+    }
     let mut r = Rng::derive(seed, idx as u64);
     let pc = ProgCfg { max_modes: 3, max_patterns: 4, lookahead: 15, nullable: true, transitions: true, big_tids: false };
     let a = cfggen::gen_program(&mut r, &pc);
@@ -2297,6 +2382,16 @@ fn case_c13(seed: u64, idx: usize, cache: &TableCache, out: &mut String, st: &mu
     bad2[0].patterns[0].pattern = "a\\b".to_string();
     cfgs.push(bad1);
     cfgs.push(bad2);
+    // a build that fails late (an unknown Unicode class, detected when the match functions are
+    // created) after it registered a new supported class; the configurations after it bring new classes
+    let mut bad3 = base.clone();
+    bad3[0].patterns[0].pattern = "\\p{Alphabetic}+|[k-q]".to_string();
+    let extra_tid = bad3[0].patterns.iter().map(|p| p.tid).max().unwrap_or(0) + 11;
+    bad3[0].patterns.push(PatSpec { pattern: "\\p{Greek}+".to_string(), tid: extra_tid, lookahead: None });
+    cfgs.push(bad3);
+    let mut after3 = base.clone();
+    after3[0].patterns[0].pattern = "[a-x]+|[0-9]".to_string();
+    cfgs.push(after3);
     // many distinct tiny configurations in the first case only (cache growth)
     let n_tiny = if idx == 0 { 1300 } else { 0 };
     let first_tiny = cfgs.len();
@@ -3910,6 +4005,7 @@ fn extra_cases(suite: &str, n: usize) -> usize {
         "C02" => n / 6,
         "C16" => n / 10,
         "C04" | "C05" => 3,
+        "C12" => 1,
         _ => 0,
     }
 }
